@@ -91,8 +91,10 @@ partial def loop (h : IO.FS.Stream) (d : DS) : IO Unit := do
     let s := cbSettle d.holdExec 8 s
     IO.println (cbLine s); loop h { d with cb := s }
   | .cb, ["Q"] => IO.println (cbLine d.cb); loop h d
-  | .wq, ["O", "write", len] =>
-    let n := nfrag len.toNat! d.maxf
+  | .wq, "O" :: "write" :: len :: rest =>
+    -- `frags=` (compressed messages): the fragment count is the implementation's (queued frames of an accepted call,
+    -- an estimate for a refused one); without it the count follows from the length
+    let n := ((Drv.field rest "frags").map String.toNat!).getD (nfrag len.toNat! d.maxf)
     let before := d.sq
     let d := sqRun d [.write n none]
     let ret := if d.sq.okCalls.length > before.okCalls.length then "ok"
